@@ -8,6 +8,6 @@ for seed in "$@"; do
     s=$(date +%s)
     out=$(VERIF_SEED=$seed ./check C$i --tier $TIER 2>&1); rc=$?
     e=$(date +%s)
-    echo "seed=$seed C$i rc=$rc $((e-s))s $(echo "$out" | grep -E '^(INCONCLUSIVE|VIOLATION|  violation)' | head -2 | cut -c1-250)"
+    echo "seed=$seed C$i rc=$rc $((e-s))s $(echo "$out" | grep -E "^(INCONCLUSIVE|VIOLATION|  violation|  floors within)" | head -2 | cut -c1-250)"
   done
 done
